@@ -42,6 +42,9 @@ def cases(tier, seed):
     out = []
     for res, rot, size in itertools.product(RES, ROT, b["sizes"]):
         out.append(dict(mode="grid", res=res, rot=rot, size=list(size)))
+    for res, rot in itertools.product(RES, ROT[:2]):
+        # a grid across the date line, stored in the 0..360 convention (all longitudes between 180 and 200)
+        out.append(dict(mode="grid", res=res, rot=rot, size=[12, 10], lon0=190.0))
     for res, rot in itertools.product(RES, ROT if tier == "thorough" else [ROT[seed % 4], ROT[(seed + 1) % 4]]):
         for layout in ("sparse", "dense") if tier == "thorough" else ("sparse",):
             out.append(dict(mode="model", res=res, rot=rot, layout=layout))
@@ -54,7 +57,7 @@ def cases(tier, seed):
     return out
 
 
-def polar_grid(imax, jmax, res, rot):
+def polar_grid(imax, jmax, res, rot, lon0=10.0):
     """lon/lat arrays [jmax, imax] of a rotated polar-stereographic grid (sphere, true scale 60N)."""
     th = math.radians(rot)
     jj, ii = np.meshgrid(np.arange(jmax), np.arange(imax), indexing="ij")
@@ -63,7 +66,7 @@ def polar_grid(imax, jmax, res, rot):
     yp = y0 + res * (ii * math.sin(th) + jj * math.cos(th))
     rho = np.hypot(xp, yp)
     lat = 90.0 - 2.0 * np.degrees(np.arctan(rho / (R_EARTH * (1.0 + math.sin(math.radians(60.0))))))
-    lon = 10.0 + np.degrees(np.arctan2(xp, -yp))
+    lon = lon0 + np.degrees(np.arctan2(xp, -yp))
     return lon, lat
 
 
@@ -96,7 +99,7 @@ def run_grid(case):
     from ladim.ROMS import Grid
 
     imax, jmax = case["size"]
-    lon, lat = polar_grid(imax, jmax, case["res"], case["rot"])
+    lon, lat = polar_grid(imax, jmax, case["res"], case["rot"], case.get("lon0", 10.0))
     w = world.World(imax=imax, jmax=jmax, N=2, h=50.0, dx=case["res"], lonlat=(lon, lat))
     d = util.scratch("c16")
     f = w.write_file(d / "g.nc", [dict(t=0, **w.zeros())])
